@@ -85,12 +85,13 @@ func themeSeqPath(r *Run, rng *rand.Rand) *routerGen {
 // conflicting names, a static host, a path-only fallback
 func themeSeqHost(r *Run, rng *rand.Rand) *routerGen {
 	pool := []string{"{h}.b.c/a", "{h}.b/a", "{g}.b/a/b", "a.b/a", "/a"}
-	if !r.quick() {
-		pool = append(pool, "a.{h}.c/a")
-	}
 	rng.Shuffle(len(pool), func(i, j int) { pool[i], pool[j] = pool[j], pool[i] })
 	g := baseGen(pool, []string{"GET", "FOO"})
 	g.Kinds = []string{"Handle", "Update", "Delete"}
+	if !r.quick() { // one more hostname, without Update (generation tags would multiply the states)
+		g.Pool = append(g.Pool, "a.{h}.c/a")
+		g.Kinds = []string{"Handle", "HandleRoute", "Delete"}
+	}
 	stdProbes(g, rng, 14)
 	return g
 }
@@ -123,7 +124,7 @@ func themeTxnSibling(r *Run, rng *rand.Rand) *routerGen {
 	g := txnBase(pool, []string{"Handle", "Update", "Delete"}, 2, 1)
 	if !r.quick() {
 		g = txnBase([]string{"/a/{x}", "/a/b", "/a/{y}/b"}, []string{"Handle", "Update", "Delete"}, 2, 1)
-		g.Settled = []string{"Handle", "Update", "Delete", "Truncate", "Has", "Route", "Reverse", "Lookup", "Iter", "Len", "Commit", "Abort", "Snapshot", "HandleRoute", "UpdateRoute"}
+		g.Settled = []string{"Handle", "Delete", "Truncate", "Route", "Lookup", "Iter", "Len", "Commit", "Abort", "Snapshot", "UpdateRoute"}
 	}
 	stdProbes(g, rng, 8)
 	return g
@@ -134,7 +135,7 @@ func themeTxnNested(r *Run, rng *rand.Rand) *routerGen {
 	pools := [][]string{{"/a", "/a/b"}, {"/a/*{w}/c", "/a"}, {"/a/b", "/a/b/c"}}
 	g := txnBase(pools[rng.Intn(len(pools))], []string{"Handle", "Update", "Delete"}, 2, 1)
 	if !r.quick() {
-		g = txnBase([]string{"/a", "/a/b", "/a/b/c"}, []string{"Handle", "Update", "Delete"}, 2, 1)
+		g.MaxOps = 3
 	}
 	stdProbes(g, rng, 8)
 	return g
